@@ -243,4 +243,30 @@ def generate(read):
     out.append("(* does string.gmatch keep a lastmatch position (Lua 5.4 does)? *)")
     out.append("Definition NL_GMATCH_HAS_LASTMATCH : bool := %s." % ("true" if info["gmatch_has_lastmatch"] else "false"))
     out.append("")
+    # string.format (lib/stringbuilder.nelua formatarg): the size bound handed to every snprintf call
+    sb = read("lib/stringbuilder.nelua")
+    m = re.search(r"local MAX_ITEM: usize <comptime> = (\d+)", sb)
+    if not m:
+        raise RuntimeError("stringbuilder.nelua: cannot find MAX_ITEM")
+    max_item = int(m.group(1))
+    fa = re.search(r"local function formatarg\(.*?\n  end\n", sb, re.S)
+    if not fa:
+        raise RuntimeError("stringbuilder.nelua: cannot find formatarg")
+    calls = re.findall(r"snprintf\(\(@cstring\)\(buf\.data\), ([^,]+), ([^,]+), ([^)]+)\)", fa.group(0))
+    s_calls = [c for c in calls if c[2].strip() == "cs"]
+    num_calls = [c for c in calls if c[2].strip() != "cs"]
+    if len(s_calls) != 1 or len(num_calls) < 5:
+        raise RuntimeError("stringbuilder.nelua formatarg: unexpected snprintf call sites %r" % (calls,))
+    # the %s site prepares max(#s + 1, MAX_ITEM) bytes and must hand snprintf the size of what it prepared
+    s_prep = re.search(r"local slen: usize = s\.size \+ 1\b", fa.group(0)) is not None and \
+        re.search(r"if slen < MAX_ITEM then slen = MAX_ITEM end\s*\n\s*buf = self:prepare\(slen\)\s*\n\s*if buf\.size < slen then", fa.group(0)) is not None
+    info["fmt_max_item"] = max_item
+    info["fmt_s_site_bound"] = s_calls[0][0].strip()
+    info["fmt_num_site_bounds"] = sorted(set(c[0].strip() for c in num_calls))
+    out.append("(* string.format: MAX_ITEM; the %%s call site of snprintf is given buf.size (%s) of a buffer prepared with" % s_calls[0][0].strip())
+    out.append("   max(#s + 1, MAX_ITEM) bytes (%s); every other call site is given MAX_ITEM (%s) *)" % (s_prep, ", ".join(info["fmt_num_site_bounds"])))
+    out.append("Definition NL_MAX_ITEM : Z := (%d)%%Z." % max_item)
+    out.append("Definition FMT_S_SITE_BOUND_IS_BUF_SIZE : bool := %s." % ("true" if s_calls[0][0].strip() == "buf.size" and s_prep else "false"))
+    out.append("Definition FMT_NUM_SITES_BOUND_IS_MAX_ITEM : bool := %s." % ("true" if info["fmt_num_site_bounds"] == ["MAX_ITEM"] else "false"))
+    out.append("")
     return "\n".join(out), info
